@@ -493,3 +493,42 @@ func VH_C06_respawn_in_handler() {
 	vrtAssert(nEv == 2, "one-killed-event")
 	vrtReach("respawned-and-killed")
 }
+
+// VH_C06_many_children: a parent with many children (some with a child of
+// their own) is killed: every descendant terminates before the parent, each is
+// reported once, every path is released.
+func VH_C06_many_children() {
+	vhLog = nil
+	w := vhNewWorld()
+	rec := w.spawn(w.root, "rec", &vhActor{name: "rec"})
+	es := w.sys.eventStream.(*eventStream)
+	es.Subscribe(rec, ves.ActorKilledEvent{})
+	p := w.spawn(w.root, "p", vhLogged("p"))
+	n := []int{9, 33, 70}[vrtChoose(3)]
+	var all []*Context
+	for i := 0; i < n; i++ {
+		name := "c" + string(rune('a'+i/26)) + string(rune('a'+i%26))
+		c := w.spawn(p, name, &vhActor{name: name})
+		all = append(all, c)
+		if i%7 == 0 {
+			all = append(all, w.spawn(c, "g", &vhActor{name: "g"}))
+		}
+	}
+	w.root.Kill(p.ref, vrtBool(), "x")
+	w.run(20*n+200, "kill-terminates")
+	vrtAssert(p.state == killed, "target-terminated")
+	for _, c := range all {
+		vrtAssert(c.state == killed, "descendants-terminated")
+		_, err := w.sys.FindActor(c.ref.String())
+		vrtAssert(err != nil, "path-released")
+	}
+	events := 0
+	for _, e := range w.boxes[rec].all {
+		if _, ok := e.Message().(ves.ActorKilledEvent); ok {
+			events++
+		}
+	}
+	vrtAssert(events == len(all)+1, "one-killed-event")
+	vrtAssert(len(p.children) == 0, "killed-only-when-childless")
+	vrtReach("many-children")
+}
